@@ -170,15 +170,44 @@ func firstLine(s string) string {
 // discharge solves all obligations of an engine.
 func (e *Engine) discharge(cfg SolverCfg) {
 	var todo []*Obl
+	parent := map[*Obl]*Obl{}
 	for _, name := range e.oblOrder {
 		o := e.obls[name]
-		_, n := oblBody(o, false)
+		body, n := oblBody(o, false)
 		if n == 0 {
 			o.Status, o.Backend = "unsat", "syntactic"
 			continue
 		}
+		if n > 1 && (len(body) > 60000 || strings.Contains(body, "(forall ") || strings.Contains(body, "(exists ")) {
+			// solve each path separately: much easier for the solvers than the disjunction
+			for i, c := range o.Cases {
+				if c.Goal == "true" {
+					continue
+				}
+				sub := &Obl{Name: fmt.Sprintf("%s [path %d]", o.Name, i), Kind: o.Kind, Cases: []OblCase{c}, Props: o.Props, Text: o.Text}
+				parent[sub] = o
+				todo = append(todo, sub)
+			}
+			o.Status = ""
+			continue
+		}
 		todo = append(todo, o)
 	}
+	defer func() {
+		for sub, o := range parent {
+			o.Secs += sub.Secs
+			switch {
+			case sub.Status == "unsat":
+				if o.Status == "" {
+					o.Status, o.Backend = "unsat", sub.Backend
+				}
+			case o.Status == "" || o.Status == "unsat" || (sub.Status == "sat" && o.Status != "sat"):
+				o.Status, o.Backend, o.Model = sub.Status, sub.Backend, sub.Model
+				// keep the failing case only, so that case indicators in the model line up
+				o.Cases = sub.Cases
+			}
+		}
+	}()
 	if d := os.Getenv("GOVC_DUMP"); d != "" {
 		for _, o := range todo {
 			if strings.Contains(o.Name, d) {
